@@ -1,6 +1,7 @@
 """C18 - results are a pure function of the arguments, whatever the access history."""
 import copy
 import json
+import os
 import threading
 
 import hypothesis
@@ -796,10 +797,96 @@ def judge_set_reuse(sc, rec):
                     sc["subset"], k, o, short(a.get(o)), short(b[o])), "set-reuse")
 
 
+# ------------------------------------------------------------------ interpreter hash seed
+@st.composite
+def hashseed_case_st(draw):
+    """Numeric summaries (cube sets of 0-D / 1-D cubes, numeric arrays, 2-D means) whose
+    measures do not all carry the same metadata - as zz9 sends them."""
+    kind = draw(st.sampled_from(["set-numeric", "numarr", "slice-mean"]))
+    n = draw(S.n_st(12))
+    weights = draw(S.weights_st(n, ("none", "int")))
+    svars = {}
+    weighted = weights is not None and draw(st.booleans())
+    stats = draw(st.sampled_from([["mean"], ["mean", "sum"], ["sum", "stddev", "mean"],
+                                  ["median", "mean"]]))
+    if kind == "numarr":
+        svars["na"] = draw(S.numarr_var_st("na", n, max_items=3))
+        svars["c0"] = draw(S.cat_var_st("c0", n, max_valid=3, allow_order_key=False))
+        m = {"var": "na", "stats": stats, "valid_counts": True}
+        queries = [{"dims": draw(st.sampled_from([[], [{"var": "c0"}]])), "weighted": weighted,
+                    "measure": m}]
+    else:
+        svars["x"] = draw(S.num_var_st("x", n))
+        svars["c0"] = draw(S.cat_var_st("c0", n, max_valid=3, allow_order_key=False))
+        m = {"var": "x", "stats": stats, "valid_counts": draw(st.booleans())}
+        if kind == "set-numeric":
+            queries = [{"dims": [], "weighted": weighted, "measure": m},
+                       {"dims": [{"var": "c0"}], "weighted": weighted, "measure": m}]
+        else:
+            svars["c1"] = draw(S.cat_var_st("c1", n, max_valid=3, allow_order_key=False))
+            queries = [{"dims": [{"var": "c0"}, {"var": "c1"}], "weighted": weighted,
+                        "measure": m}]
+    return {"kind": kind, "survey": {"n": n, "weights": weights, "vars": svars},
+            "queries": queries, "refs": draw(st.sampled_from(["all", "stats-only", "none"])),
+            "population": None, "mask_size": 0}
+
+
+def judge_hashseed(sc, rec):
+    """The same arguments evaluated by interpreters started with different PYTHONHASHSEED
+    values give the same results (names and labels included)."""
+    import subprocess
+    import sys
+    import tempfile
+    rec.event("kind=" + sc["kind"])
+    rec.event("refs=" + sc["refs"])
+    resps = [zz9enc.encode(sc["survey"], q) for q in sc["queries"]]
+    for r in resps:
+        ms = r["result"]["measures"]
+        for name, mdef in ms.items():
+            if name == "count" or not isinstance(mdef.get("metadata"), dict):
+                continue
+            is_vc = name.startswith("valid_count")
+            if sc["refs"] == "none" or (sc["refs"] == "stats-only" and is_vc):
+                meta = copy.deepcopy(mdef["metadata"])
+                meta["references"] = {}   # zz9 leaves them out on some measures
+                mdef["metadata"] = meta
+    n_numeric = len([k for k in resps[0]["result"]["measures"]
+                     if k not in ("count", "weighted_squared_count")])
+    rec.nontrivial(n_numeric >= 2 and sc["refs"] != "all")
+    spec = {"responses": resps, "transforms": [{} for _ in resps],
+            "population": sc["population"], "mask_size": sc["mask_size"],
+            "as_set": sc["kind"] == "set-numeric"}
+    with tempfile.NamedTemporaryFile("w", suffix=".json", delete=False) as f:
+        json.dump(spec, f)
+        path = f.name
+    try:
+        outs = {}
+        for hs in ("0", "1", "7", "12345"):
+            envv = dict(os.environ, PYTHONHASHSEED=hs)
+            p_ = subprocess.run([sys.executable, "-m", "engine.probe", path], env=envv,
+                                stdout=subprocess.PIPE, stderr=subprocess.PIPE, text=True)
+            if p_.returncode != 0:
+                rec.violation("evaluation fails under PYTHONHASHSEED=%s: %s" % (
+                    hs, p_.stderr.strip().splitlines()[-1:] or p_.returncode),
+                    "hash-seed-crash")
+                return
+            outs[hs] = json.loads(p_.stdout)
+    finally:
+        os.unlink(path)
+    ref = outs["0"]
+    for hs, o in outs.items():
+        for key in sorted(ref):
+            rec.compared()
+            if o.get(key) != ref[key]:
+                rec.violation("%s = %s under PYTHONHASHSEED=%s but %s under PYTHONHASHSEED=0" % (
+                    key, short(o.get(key)), hs, short(ref[key])), "hash-seed")
+
+
 SUBCHECKS = [
     SubCheck("histories", None, replay_history, quick=640, thorough=12000, kind="custom",
              custom_fn=run_machine),
     SubCheck("forms", forms_case_st(), judge_forms, quick=480, thorough=6000),
     SubCheck("threads", forms_case_st(), judge_threads, quick=64, thorough=1600),
     SubCheck("set-reuse", set_reuse_case_st(), judge_set_reuse, quick=300, thorough=4000),
+    SubCheck("hash-seed", hashseed_case_st(), judge_hashseed, quick=32, thorough=320),
 ]
